@@ -123,6 +123,21 @@ theorem opt_terminates_f32 (budget : Nat) (es : List Entry) (x0 : F32.F32)
   · obtain ⟨b, hb⟩ := F32.optimizeLoopF_terminates ser budget es hsmall (es.length + 1) x0 hn h12 (by omega) (by omega)
     exact ⟨b, hb, F32.optimizeLoopF_result ser budget es _ x0 b hn h12 hb⟩
 
+/-- one growth step at most doubles the leaf size (plus one for the truncation) -/
+theorem f32_step_at_most_doubles (x : F32.F32) (hn : F32.Normal x) (h12 : 12 ≤ x.e) :
+    F32.trunc (F32.mul12 x) ≤ 2 * F32.trunc x + 1 :=
+  F32.trunc_le_double x hn h12
+
+/-- **no overflow on the way**: every leaf size the loop hands to `buildRootsLeaves` is at most the
+    initial one or twice the number of entries — `int(leafSize)` is never applied to a float32
+    outside int64 and the float32 never reaches +Inf, which is why the model's unbounded exponent
+    loses nothing -/
+theorem f32_leaf_sizes_bounded (budget : Nat) (es : List Entry) (x0 : F32.F32) (fuel : Nat)
+    (hn : F32.Normal x0) (h12 : 12 ≤ x0.e)
+    (hsmall : ∀ l : List Entry, l.length ≤ 1 → (ser l).length ≤ budget) :
+    ∀ t ∈ F32.triedF ser budget es fuel x0, t ≤ max (F32.trunc x0) (2 * es.length) :=
+  F32.triedF_bounded ser budget es hsmall fuel x0 hn h12
+
 /-- the clamp value 4096 is such an initial value (it is THE initial value for every list of fewer
     than 14 336 000 entries, since then `float32(n)/3500 ≤ 4096`) -/
 theorem f4096_ok : F32.Normal F32.f4096 ∧ 12 ≤ F32.f4096.e ∧ F32.trunc F32.f4096 = 4096 := by
